@@ -503,6 +503,10 @@ func writerScenario(s *Sim, params map[string]string) {
 		st.batchSize = Pick(t, "cfg", 2, 2, 3, 4)
 	}
 	st.batchBytes = int64(Pick(t, "cfg", 1048576, 1048576, 400, 150, 2000))
+	if focus == "limits" {
+		st.batchSize = Pick(t, "cfg", 1, 2, 3, 4, 5, 7)
+		st.batchBytes = int64(Pick(t, "cfg", 120, 150, 200, 333, 400, 1000, 1048576))
+	}
 	st.async = t.Intn("cfg", 4) == 0
 	if focus == "order" {
 		// one submitter can only have several batches of a partition in flight
@@ -601,13 +605,16 @@ func writerScenario(s *Sim, params map[string]string) {
 			seq := 0
 			for ci := 0; ci < ncalls; ci++ {
 				k := t.Range("work", 1, 5)
+				if focus == "limits" {
+					k = t.Range("work", 1, 9)
+				}
 				if focus == "order" {
 					k = t.Range("work", 1, st.batchSize)
 				}
 				c := &wcall{actor: a, call: ci}
 				msgs := make([]kafka.Message, k)
 				reject := ""
-				if t.Intn("work", 12) == 0 {
+				if t.Intn("work", 12) == 0 || (focus == "limits" && t.Intn("work", 4) == 0) {
 					reject = Pick(t, "work", "toolarge", "topic")
 				}
 				rejectAt := t.Intn("work", k)
@@ -632,6 +639,28 @@ func writerScenario(s *Sim, params map[string]string) {
 						if pad < 0 {
 							pad = 0
 						}
+						if focus == "limits" {
+							// sums that hit the limit exactly, one under, one over
+							base := 22 + len(m.key) + len(m.id) + 1 + 1
+							bb := int(st.batchBytes)
+							switch t.Intn("work", 8) {
+							case 0:
+								pad = bb - base
+							case 1:
+								pad = bb/2 - base
+							case 2:
+								pad = bb/2 + 1 - base
+							case 3:
+								pad = bb/3 - base
+							case 4:
+								pad = bb - bb/2 - base
+							case 5:
+								pad = bb/2 - 1 - base
+							}
+							if pad < 0 {
+								pad = 0
+							}
+						}
 					}
 					m.value = append([]byte(m.id+"|"), bytes.Repeat([]byte{'x'}, pad)...)
 					if t.Intn("work", 3) == 0 && st.batchBytes >= 1000 {
@@ -648,8 +677,17 @@ func writerScenario(s *Sim, params map[string]string) {
 						km.Topic = m.topic
 					}
 					if reject == "toolarge" && j == rejectAt {
-						m.value = append([]byte(m.id+"|"), bytes.Repeat([]byte{'y'}, int(st.batchBytes))...)
-						km.Value = m.value
+						over := int(st.batchBytes)
+						if focus == "limits" && t.Intn("work", 2) == 0 {
+							// exactly one byte over the limit
+							over = int(st.batchBytes) + 1 - (22 + len(m.key) + len(m.id) + 1 + 1)
+							if over < 0 {
+								over = int(st.batchBytes)
+							}
+						}
+						m.value = append([]byte(m.id+"|"), bytes.Repeat([]byte{'y'}, over)...)
+						m.headers = nil
+						km.Value, km.Headers = m.value, nil
 					}
 					if reject == "topic" && j == rejectAt {
 						if multiTopic {
